@@ -47,6 +47,12 @@ def cases(tier, seed, ctx=None):
         for pre in (b"@BASE@/", b"%2F@BASE@/", b"%2f@BASE@/", b"/@BASE@/", b"%2F%2F@BASE@/", b"%252F@BASE@/"):
             paths.add(pre + t)
             paths.add(pre + t.replace(b"/", b"%2F"))
+    # repeated slashes (empty segments) before the climbing segments, aimed at every canary and at the parent listings
+    for pre in (b"", b".", b"sub", b"sub/deep", b"empty"):
+        for sl in (b"//", b"///", b"/./"):
+            for ups in (1, 2, 3, 4):
+                for tgt in (b"", b"SECRET", b"SECRET2", b"root2/x", b"rootX/y", b"roo", b"root/a.txt", b"q/root/a.txt"):
+                    paths.add(pre + sl + b"/".join([b".."] * ups) + (b"/" + tgt if tgt else b""))
     for p in sorted(paths):
         root = ROOTS[rng.below(len(ROOTS))] if len(p) > 8 else None
         for r in ([root] if root else ROOTS):
